@@ -629,3 +629,51 @@ def size(xs):
             if isinstance(a, Sym):
                 todo.append(a)
     return len(seen)
+
+
+def evalf_mag(x, env, memo=None, vmemo=None):
+    """(value, magnitude): magnitude bounds the size of the terms that were added up to obtain the value
+    (sum of |terms| through additions, products of magnitudes) - the scale of the rounding error."""
+    if memo is None:
+        memo = {}
+    if vmemo is None:
+        vmemo = {}
+    if isinstance(x, Fraction):
+        f = float(x)
+        return f, abs(f)
+    r = memo.get(x)
+    if r is not None:
+        return r
+    op = x.op
+    if op == "add":
+        v = 0.0
+        m = 0.0
+        for a in x.args:
+            va, ma = evalf_mag(a, env, memo, vmemo)
+            v += va
+            m += ma
+    elif op == "mul":
+        v = 1.0
+        m = 1.0
+        for a in x.args:
+            va, ma = evalf_mag(a, env, memo, vmemo)
+            v *= va
+            m *= ma
+    elif op == "div":
+        va, ma = evalf_mag(x.args[0], env, memo, vmemo)
+        vb, mb = evalf_mag(x.args[1], env, memo, vmemo)
+        v = va / vb
+        m = ma / abs(vb) * (mb / abs(vb))
+    elif op == "pow":
+        va, ma = evalf_mag(x.args[0], env, memo, vmemo)
+        k = x.args[1]
+        v = va ** k
+        m = ma ** k if k >= 0 else (ma / abs(va)) ** (-k) * abs(v)
+    else:
+        v = evalf(x, env, vmemo)
+        m = abs(v)
+        if op == "fn" and x.args[0] in ("sin", "cos", "atan2"):
+            m = max(m, 1e-3)
+    r = (v, max(m, abs(v)))
+    memo[x] = r
+    return r
